@@ -153,6 +153,7 @@ type Exec struct {
 	Trace       bool
 	LenOfSym    map[int]*Term
 	CurHarness  string
+	FreshDefs   map[string]*FreshDef
 	ContractsUsed []string
 	Tier        string
 	BitLenDense int
@@ -166,7 +167,7 @@ type Observation struct {
 func NewExec(prog *ssa.Program, solver *Solver) *Exec {
 	e := &Exec{Prog: prog, TS: NewStore(), Solver: solver, globals: map[*ssa.Global]int{}, initSt: map[*ssa.Package]int{},
 		Unwind: 8, MaxDepth: 400, BranchTimeoutMs: 2000, ConcretizeTimeoutMs: 20000, Merge: true, FuncsSeen: map[*ssa.Function]int{}, defKey: map[string][]*Term{},
-		nondet: map[string]Value{}, strIntern: map[string]int64{}, feasCache: map[string]Result{}, InitPkgs: map[string]bool{}, LenOfSym: map[int]*Term{}}
+		nondet: map[string]Value{}, strIntern: map[string]int64{}, feasCache: map[string]Result{}, InitPkgs: map[string]bool{}, LenOfSym: map[int]*Term{}, FreshDefs: map[string]*FreshDef{}}
 	return e
 }
 
@@ -375,6 +376,8 @@ func (e *Exec) truncDivRem(n, d *Term) (*Term, *Term) {
 	}
 	qa := ts.FreshBounded("q", new(big.Int), qHi)
 	ra := ts.FreshBounded("r", new(big.Int), rHi)
+	e.FreshDefs[qa.Name] = &FreshDef{Kind: "absquo", Args: []*Term{n, d}}
+	e.FreshDefs[ra.Name] = &FreshDef{Kind: "absrem", Args: []*Term{n, d}}
 	absn := e.absTerm(n)
 	absd := e.absTerm(d)
 	def := ts.Implies(ts.Ne(d, zero), ts.And(
@@ -444,6 +447,7 @@ func (e *Exec) isqrt(x *Term) *Term {
 		sHi = new(big.Int).Sqrt(x.Hi)
 	}
 	s := ts.FreshBounded("sqrt", sLo, sHi)
+	e.FreshDefs[s.Name] = &FreshDef{Kind: "sqrt", Args: []*Term{x}}
 	s1 := ts.Add(s, ts.Int64(1))
 	e.addDef(ts.Implies(ts.Ge(x, ts.Int64(0)), ts.And(ts.Le(ts.Mul(s, s), x), ts.Lt(x, ts.Mul(s1, s1)))))
 	e.defKey[key] = []*Term{s}
